@@ -14,7 +14,8 @@ for d in sorted(glob.glob(os.path.join(V, "seeded", "*"))):
     if classes:
         mm = re.search(r"violating class (\{.*?\}) \(", classes[0])
         how = mm.group(1) if mm else classes[0][:120]
-    caught = "`bin/check %s`" % m.get("property") if c.get("caught") else "**missed**"
+    also = [k for k, v in (c.get("also") or {}).items() if v]
+    caught = "`bin/check %s`" % m.get("property") if c.get("caught") else ("`bin/check %s`" % also[0] if also else "**missed**")
     note = m.get("strengthened", "")
     def cell(x): return str(x).replace("|", "\\|").replace("\n", " ")
     rows.append("| `%s` %s | %s | %s | %s%s | %s |" % (sid, cell(m.get("summary", ""))[:230], m.get("property"), cell(m.get("needs", ""))[:230], caught,
